@@ -14,7 +14,7 @@ git apply "$P"
 cargo build --offline >/dev/null 2>&1 || { say "BUILD FAILS with patch"; exit 1; }
 say "build ok"
 T=$(cargo test --offline --no-fail-fast 2>&1)
-fails=$(echo "$T" | grep -E "^test .* FAILED" | grep -v "translate::tau_star::translate_examples" | wc -l)
+fails=$(echo "$T" | grep -E "^test [^ ]+ \.\.\. FAILED" | grep -v "translate::tau_star::translate_examples" | wc -l)
 passed=$(echo "$T" | grep -E "^test result" | head -1)
 say "tests with patch: $passed ; unexpected failures: $fails"
 [ "$fails" = 0 ] || ok=0
